@@ -55,7 +55,9 @@ func c02Small(c *mc.Ctx) {
 	pks := orderedPKs[ncols]
 	pk := pks[c.Choose(len(pks))]
 	nr := c.Choose(maxRows + 1)
-	cells := []string{"", "a", "b"}
+	// the second alphabet has a longer value that sorts BEFORE a shorter one ("ab" < "b"): an order
+	// taken from the length-prefixed encoding instead of the strings differs on it
+	cells := [][]string{{"", "a", "b"}, {"", "b", "ab"}}[c.Choose(2)]
 	var rows [][]string
 	for i := 0; i < nr; i++ {
 		row := make([]string, ncols)
@@ -295,11 +297,11 @@ func init() {
 	register(&mc.Check{
 		ID:    "C02",
 		Level: "exploration",
-		Rule: "every logical table with unique keys over 1..3 columns, cells {'',a,b}, every ordered key subset incl. none, up to 3 rows (2 for 3 columns; one more in thorough), enumerated canonically; for each: all row permutations x run sizes {none, every row, ~2 rows} x workers 1..3 x delimiters {, | tab ;}, each into a fresh store, and through a sorter that sorted another table before and was Reset, must give one identifier; " +
+		Rule: "every logical table with unique keys over 1..3 columns, cells {'',a,b} and {'',b,ab}, every ordered key subset incl. none, up to 3 rows (2 for 3 columns; one more in thorough), enumerated canonically; for each: all row permutations x run sizes {none, every row, ~2 rows} x workers 1..3 x delimiters {, | tab ;}, each into a fresh store, and through a sorter that sorted another table before and was Reset, must give one identifier; " +
 			"every single-cell change, column rename, column-name swap and key change must give a different one; across the whole family the map identifier -> logical table must be injective (cross-worker merge). " +
 			"multi-block: 300/511/766-row tables x 3 file orders x 4 run sizes x 1..3 workers. cli: `wrgl commit --set-file` then a second commit of permuted / changed data with --mem-limit and -n variants must report unchanged / changed. " +
 			"non-trivial = table of >= 2 rows; distinct by canonical table",
-		Assumptions: []string{"cells are drawn from a 3-value alphabet (plus 'c' and 'z' for neighbours)", "schedule dependence of multi-worker ingest is decided by C16; here workers run free"},
+		Assumptions: []string{"cells are drawn from two 3-value alphabets (plus 'c' and 'z' for neighbours)", "schedule dependence of multi-worker ingest is decided by C16; here workers run free"},
 		Harnesses: []*mc.Harness{
 			{Name: "small", Body: c02Small, Budget: map[string]time.Duration{"quick": 60 * time.Second, "thorough": 12 * time.Minute}},
 			{Name: "multi-block", Body: c02Multi, Budget: map[string]time.Duration{"quick": 40 * time.Second, "thorough": 5 * time.Minute}},
